@@ -3,7 +3,7 @@
    Theorems only; proofs in Proofs/BddP.v (axiom-free).  [wf_store] = reduced store (children
    distinct, hash-consed), [ordered O s n] = every node reachable from n tests a variable of O
    strictly earlier than the variables of its children. *)
-From PMC Require Import Spec.Lemmas Proofs.BddP.
+From PMC Require Import Spec.Lemmas Model.BddCache Proofs.BddP Proofs.BddCacheP.
 
 (* f op g for ANY binary Boolean operator (in particular &, |, ^): never an error on two
    diagrams of the same ordering, the result denotes the pointwise combination on every
@@ -65,6 +65,35 @@ Theorem C17_respects_ordering : forall s n O, wf_store s -> live s n = true ->
   (respects_ord (nfuel n) O s n = Ok true <-> ordered O s n).
 Proof. intros s n O. apply respects_ord_spec. Qed.
 Print Assumptions C17_respects_ordering.
+
+(* The CODE threads memo dictionaries (r_cache) through apply / restrict / ~ ; the model above
+   has none.  Model/BddCache.v mirrors the cached code (lookup first, key without the operator,
+   one fresh cache per top-level call) and returns EXACTLY the same store and node: the memo is
+   a pure optimisation — a theorem, not an assumption. *)
+Theorem C17_apply_cache : forall O op fuel s a b, wf_store s -> live s a = true -> live s b = true ->
+  nfuel a + nfuel b <= fuel -> apply_top fuel O op s a b = apply fuel O op s a b.
+Proof. exact apply_top_eq_gen. Qed.
+Print Assumptions C17_apply_cache.
+
+Theorem C17_neg_cache : forall fuel s a, wf_store s -> live s a = true -> nfuel a <= fuel ->
+  neg_top fuel s a = neg fuel s a.
+Proof. exact neg_top_eq. Qed.
+Print Assumptions C17_neg_cache.
+
+Theorem C17_restrict_cache : forall fuel s a v b, wf_store s -> live s a = true -> nfuel a <= fuel ->
+  cofactor_top fuel s a v b = cofactor fuel s a v b.
+Proof. exact cofactor_top_eq. Qed.
+Print Assumptions C17_restrict_cache.
+
+(* ... and it matters that a cache never outlives one top-level call: re-using it for another
+   operator gives a wrong node (so such a bug in the code would be visible in the model) *)
+Theorem C17_cache_reuse_refuted : exists s1 c1,
+  apply_c 10 ex_O andb ex_s0 [] 2 3 = Ok (s1, c1, 4) /\
+  erase2 (apply_c 10 ex_O orb s1 c1 2 3) = Ok (s1, 4) /\
+  apply 10 ex_O orb s1 2 3 = Ok ((5, (0, 3, 1)) :: s1, 5) /\
+  denote s1 4 (fun v => Nat.eqb v 0) = false /\ denote ((5, (0, 3, 1)) :: s1) 5 (fun v => Nat.eqb v 0) = true.
+Proof. exact cache_reuse_across_operators_wrong. Qed.
+Print Assumptions C17_cache_reuse_refuted.
 
 (* non-vacuity: (a & b) ^ (b | c) under the ordering [a; b; c] *)
 Example C17_example :
